@@ -45,10 +45,12 @@ type trial struct {
 	// logoutGrace: number of further responses the server still sends after
 	// it has answered LOGOUT before it closes the connection
 	logoutGrace int
+	// noise: seed of the write-point jitter (0 = none)
+	noise uint64
 }
 
 func (tr trial) String() string {
-	return fmt.Sprintf("workers=%v disruptor=%+v reorder=%v noLitMinus=%v refuse=%d logoutGrace=%d", tr.workers, tr.dis, tr.reorder, tr.noLitMinus, tr.refuse, tr.logoutGrace)
+	return fmt.Sprintf("workers=%v disruptor=%+v reorder=%v noLitMinus=%v refuse=%d logoutGrace=%d", tr.workers, tr.dis, tr.reorder, tr.noLitMinus, tr.refuse, tr.logoutGrace) + fmt.Sprintf(" noise=%x", tr.noise)
 }
 
 var opNames = []string{"Noop", "Status", "Fetch", "Search", "UIDSearch", "AppendSync", "AppendNonSync", "List", "Capability", "Caps", "State", "Mailbox", "Enable", "Store", "Idle", "Login",
@@ -278,6 +280,26 @@ func runTrial(t fataler, tr trial) int64 {
 	persist(tr)
 	defer unpersist()
 	clientEnd, s := script.New()
+	if tr.noise != 0 {
+		// schedule noise at the only points the harness owns: every network
+		// write of the client and of the scripted server is followed, with a
+		// seeded pseudo-random choice, by a yield or a short sleep
+		var ctr uint64
+		jitter := func([]byte) {
+			x := atomic.AddUint64(&ctr, 1)*0x9E3779B97F4A7C15 ^ tr.noise
+			x ^= x >> 29
+			x *= 0xBF58476D1CE4E5B9
+			x ^= x >> 32
+			switch x % 8 {
+			case 0:
+				runtime.Gosched()
+			case 1:
+				time.Sleep(time.Duration(x>>40%200) * time.Microsecond)
+			}
+		}
+		clientEnd.OnWrite = jitter
+		s.Conn.OnWrite = jitter
+	}
 	var inflight int64
 	sv := &server{s: s, tr: tr, tags: map[string]int{}, inflight: &inflight, done: make(chan struct{})}
 	go sv.loop()
@@ -514,6 +536,9 @@ func genTrial(t *rapid.T) trial {
 	tr.noLitMinus = rapid.Bool().Draw(t, "noLitMinus")
 	tr.refuse = rapid.SampledFrom([]int{0, 0, 1, 2, 3}).Draw(t, "refuse")
 	tr.logoutGrace = rapid.IntRange(0, 6).Draw(t, "logoutGrace")
+	if rapid.Bool().Draw(t, "noisy") {
+		tr.noise = rapid.Uint64Min(1).Draw(t, "noise")
+	}
 	return tr
 }
 
